@@ -8,7 +8,14 @@ macro_rules! write { ($w:expr, $($t:tt)*) => { $w.write_all(b"H") } }
 macro_rules! warn { ($($t:tt)*) => {} }
 macro_rules! debug_assert { ($($t:tt)*) => {} }
 pub mod io {
-    pub use std::io::{Error, ErrorKind, Result};
+    /// io::Error as a plain value (the real one has a bit-packed representation whose drop glue and Debug impl dominate the formula;
+    /// the property does not depend on what an error contains, only on where one arises)
+    #[derive(Clone, Copy, PartialEq, Eq)] pub enum ErrorKind { NotFound, BrokenPipe, Other, InvalidData }
+    pub struct Error(pub ErrorKind);
+    impl Error { pub fn new<M>(k: ErrorKind, _: M) -> Error { Error(k) } pub fn kind(&self) -> ErrorKind { self.0 } }
+    impl From<ErrorKind> for Error { fn from(k: ErrorKind) -> Error { Error(k) } }
+    impl core::fmt::Debug for Error { fn fmt(&self, _: &mut core::fmt::Formatter<'_>) -> core::fmt::Result { Ok(()) } }
+    pub type Result<T> = core::result::Result<T, Error>;
     pub trait Write { fn write_all(&mut self, b: &[u8]) -> Result<()>; }
     pub trait Read { fn read_byte(&mut self) -> Result<Option<u8>>; }
     impl<W: Write> Write for &mut W { fn write_all(&mut self, b: &[u8]) -> Result<()> { (**self).write_all(b) } }
